@@ -402,6 +402,14 @@ struct ReadOnly : Profile {
             int   res = w1 == FAIL;
             if (w1 != FAIL)
                 VSdetach(w1);
+            else {
+                // the refused attachment must not have made the read attachment writable, or spoilt its release
+                if (VSsetname(r1, "ro_renamed2") != FAIL || VSsetclass(r1, "ro_class2") != FAIL)
+                    res = 0;
+                if (VSdetach(r1) == FAIL)
+                    res = 0;
+                return res;
+            }
             VSdetach(r1);
             return res;
         }
@@ -415,6 +423,13 @@ struct ReadOnly : Profile {
             int   res = w1 == FAIL;
             if (w1 != FAIL)
                 Vdetach(w1);
+            else {
+                if (Vsetname(r1, "ro_renamed2") != FAIL || Vaddtagref(r1, 8996, 1) != FAIL)
+                    res = 0;
+                if (Vdetach(r1) == FAIL)
+                    res = 0;
+                return res;
+            }
             Vdetach(r1);
             return res;
         }
